@@ -37,7 +37,7 @@ func c10(r *core.Run) {
 	c11CacheCoherence(r, "B1", "store/badgerstore")
 	transF, ok1 := fieldByType(p, rel, "storeHandler", func(t types.Type) bool { return core.TypeName(t) == qual(rel, "Transformer") })
 	defF, ok2 := fieldByType(p, rel, "storeHandler", func(t types.Type) bool {
-		return types.TypeString(t, nil) == "encoding/json.RawMessage" || types.TypeString(t, nil) == "interface{}"
+		return types.TypeString(t, nil) == "encoding/json.RawMessage" || isEmptyIface(t)
 	})
 	if !ok1 || !ok2 {
 		r.Unres("T1", "storeHandler.<transformer>/<default>", fmt.Sprintf("transformer field resolved=%v default field resolved=%v", ok1, ok2))
@@ -46,17 +46,19 @@ func c10(r *core.Run) {
 	// the two handlers by role
 	var get, chg *ssa.Function
 	for _, m := range methodsOf(p, rel, "storeHandler") {
-		if len(m.Params) == 2 && core.TypeName(m.Params[1].Type()) == "GetRequest" {
+		if len(m.Params) == 2 && core.TypeName(m.Params[1].Type()) == "GetRequest" && (get == nil || !p.IsPrivateHelper(m)) {
 			get = m
 		}
 		if len(m.Params) == 4 {
 			n := 0
 			for _, prm := range m.Params[2:] {
-				if types.TypeString(prm.Type(), nil) == "interface{}" {
+				if isEmptyIface(prm.Type()) {
 					n++
 				}
 			}
-			if n == 2 && types.TypeString(m.Params[1].Type(), nil) == "string" {
+			// (a private helper may have the same shape: the handler is the one registered as a
+			// callback, i.e. not a plain helper of another method)
+			if n == 2 && types.TypeString(m.Params[1].Type(), nil) == "string" && (chg == nil || !p.IsPrivateHelper(m)) {
 				chg = m
 			}
 		}
@@ -141,7 +143,7 @@ func c10(r *core.Run) {
 		var out []ssa.Value
 		for _, ed := range dominatingEdges(c) {
 			ci := core.Cond(ed.If.Cond)
-			if ci.Kind != "nilcmp" || types.TypeString(ci.X.Type(), nil) != "interface{}" {
+			if ci.Kind != "nilcmp" || !isEmptyIface(ci.X.Type()) {
 				continue
 			}
 			truth := ed.Succ == 0
@@ -220,7 +222,7 @@ func c10(r *core.Run) {
 	r.Check(vAfter != nil && delBeforeNonNil, "S1", core.FuncName(chg), "delete-on-after==nil-and-before!=nil", p.InstrPos(deleteCall), "DeleteEvent only when the after representation is nil and the before one is not", "DeleteEvent is not selected on the after==nil (before non-nil) edge")
 	// rid: IDToRID of after, else before
 	ridOK := 0
-	for _, c := range core.Calls(chg) {
+	for _, c := range helperCalls(p, chg) {
 		if c.Common().IsInvoke() && c.Common().Method.Name() == "IDToRID" && len(c.Common().Args) >= 2 {
 			v := c.Common().Args[1]
 			nonNil := false
@@ -514,4 +516,10 @@ func c10(r *core.Run) {
 	r.Check(nSet >= 1 && setOK, "D1", core.FuncName(md), "reports-only-new-or-unequal-keys", p.Pos(md.Pos()), "a key is reported only where it is new or Value.Equal is false", "the model diff reports unchanged keys or none: "+why)
 	_, isMk := chMap.(*ssa.MakeMap)
 	r.Check(chCall != nil && isMk && !strings.Contains(core.FuncName(md), "$"), "D1", core.FuncName(md), "ChangeEvent(diff-map)", posOf(p, chCall), "the freshly built diff map is what ChangeEvent receives (ChangeEvent itself drops an empty map: C08.O3)", "ChangeEvent does not receive the diff map built here")
+}
+
+// isEmptyIface: interface{} or its alias any.
+func isEmptyIface(t types.Type) bool {
+	i, ok := types.Unalias(t).(*types.Interface)
+	return ok && i.Empty()
 }
